@@ -21,8 +21,56 @@ func checkC20(r *core.Run) {
 	r.Rule("RemoveVstorage: after the decrement the threshold is re-tested on every success path and a super node below it is demoted and persisted; Reset: Role := normal before re-evaluation")
 	r.Rule("no-stale-check: after CheckNodeShare(&node,..) no store to node.Validator/Status before the record is persisted")
 	r.Rule("D3: no process-resident state (shared with C01/C03)")
+	r.Rule("G-share-ratio: CheckDelegationShare succeeds only if (delegation.Shares / (validator.DelegatorShares - sharesToSub)) >= ShareThreshold: numerator and denominator are both in SHARES of that validator (sharesToSub, the pending reduction passed by the unbond hooks, is an amount of shares)")
 	r.Assume(aDeps)
 	r.Assume(aCG)
+	{
+		cds := "node/keeper.Keeper.CheckDelegationShare"
+		del := "node/types.StakingKeeper.GetDelegation(*)#0.Shares"
+		val := "node/types.StakingKeeper.GetValidator(*)#0.DelegatorShares"
+		ratio := "sdk.Dec.Quo(" + del + ",*" + val + "*)"
+		if fn := r.Func("G-share-ratio", cds); fn != nil {
+			ck := &guard.Checker{P: r.P, Fn: fn, Res: r.Resolver(fn)}
+			n := 0
+			for _, b := range fn.Blocks {
+				ret, ok := b.Instrs[len(b.Instrs)-1].(*ssa.Return)
+				if !ok || len(ret.Results) != 1 {
+					continue
+				}
+				if c, isC := ret.Results[0].(*ssa.Const); !isC || c.Value != nil {
+					continue
+				}
+				n++
+				key := core.Key("G-share-ratio", cds, fmt.Sprintf("success return#%d", n))
+				ok2, w := ck.MustPass(b, []guard.Atom{guard.False("sdk.Dec.LT(" + ratio + ",node/keeper.Keeper.ShareThreshold())"), guard.True("sdk.Dec.GTE(" + ratio + ",node/keeper.Keeper.ShareThreshold())")})
+				if ok2 {
+					// units: the denominator must not mix in token amounts
+					bad := ""
+					res := r.Resolver(fn)
+					for _, bb := range fn.Blocks {
+						for _, ins := range bb.Instrs {
+							if c, ok := ins.(*ssa.Call); ok {
+								if name, _ := res.CalleeName(&c.Call); name == "sdk.Dec.Quo" {
+									t := normT(res.Of(c).String())
+									if strings.Contains(t, ".Tokens") || strings.Contains(t, "TokensFromShares") {
+										bad = t
+									}
+								}
+							}
+						}
+					}
+					if bad == "" {
+						r.Discharge("G-share-ratio", key, r.P.Pos(ret.Pos()), "success only after delegation.Shares / (validator.DelegatorShares - sharesToSub) >= ShareThreshold")
+					} else {
+						r.Violate("G-share-ratio", key, r.P.Pos(ret.Pos()), "the share ratio mixes token amounts with share amounts: "+shorten(bad))
+					}
+				} else {
+					r.Violate("G-share-ratio", key, r.P.Pos(ret.Pos()), "CheckDelegationShare can succeed without establishing delegation.Shares / (validator.DelegatorShares - sharesToSub) >= ShareThreshold (both in shares of the validator): after a slash tokens < shares, so subtracting the pending SHARE reduction from a TOKEN total, or comparing other quantities, lets a node below the threshold become or stay a super node", append([]string{"path (branch decisions):"}, w...)...)
+				}
+			}
+			r.Floor("share_ratio_success_returns", n, 1)
+		}
+	}
 
 	super := constVal(r, "node/types", "NODE_SUPER")
 	normal := constVal(r, "node/types", "NODE_NORMAL")
